@@ -298,7 +298,7 @@ REGISTRY["C13"] = {
                    "1 ns after), a small advance, a jump of hours, a jump backwards, or a cancellation. After every step the timer goroutines are brought to "
                    "quiescence (mock clock: no real time involved) and the number of values received, the closed state and the spacing of firings are compared "
                    "with a 40-line reference model of the documented semantics. Process level: a timer catch event built with "
-                   "timer.EventDefinitionInstanceBuilder, optionally behind a task: the task after it is requested exactly once per firing it was listening for."),
+                   "timer.EventDefinitionInstanceBuilder, optionally behind a task: the task after it is requested exactly once per firing it was listening for. TestC13FarDates: date timers due days to millennia away from the clock (around and beyond the ~292-year range of time.Duration, dates in the past) with clock jumps of that size, forwards and backwards: exactly one firing, at the first clock value not before the due date."),
     "level_note": "Trusted: the reference timer model in props/c13, clock.Mock as the time source, the quiescence detector. Durations in seconds/minutes/hours only (the ISO library's month/year arithmetic is not the subject).",
     "technique": "rapid property test over generated clock histories against a reference timer model (deterministic via mock clock + goroutine-snapshot quiescence)",
     "rule": ("Distinct = (definition, history). Non-trivial = a step lands exactly on a due time, or jumps beyond >=2 due times of a cycle, or a cancellation comes between firings. Process level: >=2 clock steps."),
@@ -308,6 +308,7 @@ REGISTRY["C13"] = {
         {"name": "TestC13Process", "checks": {"quick": 150, "thorough": 5000}, "shards": {"quick": 4, "thorough": 16}},
         {"name": "TestC13TwoInstances", "checks": {"quick": 100, "thorough": 3000}, "shards": {"quick": 2, "thorough": 8}},
         {"name": "TestC13Funnel", "checks": {"quick": 150, "thorough": 4000}, "shards": {"quick": 4, "thorough": 16}},
+        {"name": "TestC13FarDates", "checks": {"quick": 300, "thorough": 20000}, "shards": {"quick": 2, "thorough": 16}},
     ],
 }
 
